@@ -30,7 +30,7 @@ class Fn:
     def __call__(self, *a, **kw):
         if self.exc:
             raise self.exc('boom from ' + self.name)
-        return (self.name, a, tuple(sorted(kw.items())))
+        return (self.name, a, tuple(kw.items()))        # keywords in the order in which they arrive
 
     def __repr__(self):
         return 'Fn(%r)' % self.name
@@ -42,7 +42,7 @@ class Ob:
         self.lst = [4, 5]
 
     def m(self, *a, **kw):
-        return ('m', a, tuple(sorted(kw.items())))
+        return ('m', a, tuple(kw.items()))
 
     @property
     def prop(self):
@@ -85,6 +85,15 @@ class CallableOb(Ob):
         return 'CallableOb()'
 
 
+class FalsyCallable(CallableOb):
+    """callable, but falsy (an empty registry / a switched-off handler object): calling it is still calling it"""
+    def __len__(self):
+        return 0
+
+    def __repr__(self):
+        return 'FalsyCallable()'
+
+
 def mk_target(name):
     if name == 'int':
         return 7
@@ -102,6 +111,8 @@ def mk_target(name):
         return CallableOb()
     if name == 'class':
         return Box
+    if name == 'falsy-callable':
+        return FalsyCallable()
     if name == 'dictsub':
         return Lenient({'a': 2, 'l': [10, 11, 12], 0: 'zero', 'f': Fn('f')})
     raise ValueError(name)
@@ -122,7 +133,7 @@ class Lenient(dict):
         return ('missing', key)
 
 
-TARGETS = ['int', 'float', 'str', 'list', 'dict', 'obj', 'dictsub', 'callable', 'class']
+TARGETS = ['int', 'float', 'str', 'list', 'dict', 'obj', 'dictsub', 'callable', 'class', 'falsy-callable']
 
 # argument terms: {'lit': v} | {'T': ops} | {'spec': path} | {'list': [...]} | {'tuple': [...]} | {'slice': [a,b,c]}
 LIT = lambda v: {'lit': v}
@@ -155,6 +166,7 @@ CALLS = [
     # keyword names that an implementation is likely to use for its own parameters
     [[], {'func': LIT(1), 'args': LIT(2), 'kwargs': LIT(3)}],
     [[LIT(0)], {'target': TA, 'scope': LIT(None), 'spec': LIT('s'), 'cur': LIT(4)}],
+    [[], {'zeta': LIT(3), 'alpha': TA, 'mid': LIT(1)}],          # keywords reach the callee in the order in which they were written
 ]
 for a, kw in CALLS:
     OPS.append(['(', a, kw])
@@ -536,6 +548,9 @@ def run_literal(case):
             return R({'expected': 'the literal argument itself (%s %r) reaches the operation' % (type(lit).__name__, lit),
                       'observed': 'a different object: %s %r' % (type(received).__name__, received), **where}, 'copied')
     else:
+        if isinstance(lit, (list, dict, set)) and received is lit:
+            return R({'expected': 'a plain %s argument is rebuilt for the call (the callee may keep or change what it gets; the expression must not change)' % type(lit).__name__,
+                      'observed': 'the very object stored in the expression was passed', **where}, 'aliased')
         if type(received) is not type(lit) or received != lit or repr(received) != repr(lit):
             return R({'expected': '%s %r' % (type(lit).__name__, lit), 'observed': '%s %r' % (type(received).__name__, received), **where}, 'changed')
     return R(None, ('identity' if by_identity else 'rebuilt') + ':' + position.rstrip('+-*/%&|^'), nontrivial=True, steps=1,
